@@ -195,6 +195,7 @@ def run(ctx):
     import fdlib
     ctx.coverage.update(fdlib.correspondence(ctx, rng.fork("float-components"), 64 if q else 1600, 64 if q else 1600, "c10"))
     ctx.coverage.update(fdlib.tl_correspondence(ctx, rng.fork("timing-loop"), 48 if q else 1200, "c10"))
+    ctx.coverage.update(fdlib.frontend_correspondence(ctx, rng.fork("front-end"), 48 if q else 800, "c10"))
     ctx.coverage["known_finding_F12_witness_reproduces"] = f12_witness(ctx)
     ctx.coverage.update({
         "evaluations": len(cases), "distinct_nontrivial": nontriv,
